@@ -31,7 +31,7 @@ fn push_unique(v: &mut Vec<String>, s: &str) {
 
 fn affixed(v: &[String], out: &mut Vec<String>) {
     for n in v.iter().filter(|n| !n.is_empty() && n.len() < 200).take(3) {
-        for cand in [format!("{}\n", n), format!("{}\r\n", n), format!("{} ", n), format!(" {}", n), format!("{}\u{a0}", n), format!("{}\0", n), n.to_uppercase(), n.to_lowercase()] {
+        for cand in [format!("{}\n", n), format!("{}\r\n", n), format!("{} ", n), format!(" {}", n), format!("{}\u{a0}", n), format!("{}\0", n), n.to_uppercase(), n.to_lowercase(), format!("app//{}", n), format!("java.base/{}", n), format!("{}$$ExternalSyntheticLambda0", n)] {
             if !v.contains(&cand) {
                 push_unique(out, &cand);
             }
@@ -147,6 +147,13 @@ impl Universe {
                     u.files_derived.push(f);
                 }
             }
+        }
+        // the one magic file name of the format as the *frame's* file (what a JVM prints for R8-synthesized classes)
+        u.files_derived.push("R8$$SyntheticClass".to_string());
+        // parameter strings spelled the way `format_signature` prints them (", " between the types): other strings
+        let spaced: Vec<String> = u.params.iter().filter(|p| p.contains(',') && p.len() < 200).map(|p| p.replace(',', ", ")).collect();
+        for p in spaced {
+            push_unique(&mut u.params, &p);
         }
         u
     }
